@@ -433,18 +433,36 @@ def _check_trigger_coverage(check, an: Analysis, classes):
                 if impl and isinstance(node.func.value, ast.Name) and \
                         node.func.value.id == 'self':
                     continue  # the mechanism itself, not a trigger site
-                recv_types = an.te.classes_of(an.te.expr_type(node.func.value, frame))
-                is_self = isinstance(node.func.value, ast.Name) and \
-                    node.func.value.id == 'self'
-                for qn in recv_types:
-                    targets = [qn]
-                    if is_self:
-                        # inherited by every subclass that does not override the method
-                        targets += [s for s in an.p.subclasses(qn)
-                                    if an.p.find_method(s, fn.name) is fn]
-                    for target in targets:
-                        sites.setdefault(target, []).append(
-                            '%s:%d' % (fn.module.relpath, node.lineno))
+                # (receiver expression, function it stands in, its frame): a parameter of a
+                # plain function is followed to the arguments given at the call sites
+                receivers = [(node.func.value, fn, frame)]
+                if isinstance(node.func.value, ast.Name) and fn.cls is None and \
+                        rules._is_param(fn, node.func.value.id):
+                    params = [a.arg for a in fn.node.args.posonlyargs + fn.node.args.args]
+                    position = params.index(node.func.value.id) \
+                        if node.func.value.id in params else None
+                    given = []
+                    for caller, call, cframe in rules.call_sites_of(an, fn.qn):
+                        args = [a for a in call.args if not isinstance(a, ast.Starred)]
+                        named = [kw.value for kw in call.keywords
+                                 if kw.arg == node.func.value.id]
+                        if named:
+                            given.append((named[0], caller, cframe))
+                        elif position is not None and position < len(args) == len(call.args):
+                            given.append((args[position], caller, cframe))
+                    receivers = given or receivers
+                for recv_expr, recv_fn, recv_frame in receivers:
+                    recv_types = an.te.classes_of(an.te.expr_type(recv_expr, recv_frame))
+                    is_self = isinstance(recv_expr, ast.Name) and recv_expr.id == 'self'
+                    for qn in recv_types:
+                        targets = [qn]
+                        if is_self:
+                            # inherited by every subclass that does not override the method
+                            targets += [s for s in an.p.subclasses(qn)
+                                        if an.p.find_method(s, recv_fn.name) is recv_fn]
+                        for target in targets:
+                            sites.setdefault(target, []).append(
+                                '%s:%d' % (fn.module.relpath, node.lineno))
     for qn in classes:
         label = qn.rsplit('.', 1)[-1]
         if qn in (CONDITION, CONNECTIVE):
